@@ -1,14 +1,15 @@
 // spec view of Bitstr: the bit sequence and nothing else (shared by units/bitstr.rs and units/cursor.rs)
 impl Bitstr {
-    spec fn bytes(&self) -> Seq<u8> { self.data@ }
-    spec fn s(&self) -> int { self.range.start as int }
-    spec fn e(&self) -> int { self.range.end as int }
+    pub closed spec fn bytes(&self) -> Seq<u8> { self.data@ }
+    pub closed spec fn s(&self) -> int { self.range.start as int }
+    pub closed spec fn e(&self) -> int { self.range.end as int }
     #[verifier::type_invariant]
     spec fn wf(&self) -> bool {
         self.range.start <= self.range.end && self.range.end <= 8 * self.data@.len()
     }
     // abstract value: the bit sequence, and nothing else
-    spec fn view(&self) -> Seq<bool> {
+    pub closed spec fn view(&self) -> Seq<bool> {
         bits_of(self.data@, self.range.start as int, self.range.end as int)
     }
 }
+
